@@ -1,4 +1,5 @@
 use std::collections::HashMap;
+use std::convert::TryFrom;
 
 use itertools::Itertools;
 
@@ -259,18 +260,20 @@ impl ColumnParsing {
                             let value = ColumnParsing::extract_using_regex(&ValueType::Int, parsing_input, pattern, Value::Null);
 
                             if let Value::Int(value_i64) = value {
+                                // A part that does not fit its type becomes an invalid part (=> no timestamp), never another value
+                                let value_u32 = u32::try_from(value_i64).unwrap_or(u32::MAX);
                                 match index {
-                                    0 => { year = value_i64 as i32 },
-                                    1 => { month = value_i64 as u32 },
-                                    2 => { day = value_i64 as u32 },
-                                    3 => { hour = value_i64 as u32 },
-                                    4 => { minute = value_i64 as u32 },
-                                    5 => { second = value_i64 as u32 }
+                                    0 => { year = i32::try_from(value_i64).unwrap_or(i32::MAX) },
+                                    1 => { month = value_u32 },
+                                    2 => { day = value_u32 },
+                                    3 => { hour = value_u32 },
+                                    4 => { minute = value_u32 },
+                                    5 => { second = value_u32 }
                                     6 => {
                                         if column.options.microseconds {
-                                            microsecond = value_i64 as u32;
+                                            microsecond = value_u32;
                                         } else {
-                                            microsecond = value_i64 as u32 * 1000;
+                                            microsecond = value_u32.checked_mul(1000).unwrap_or(u32::MAX);
                                         }
                                     }
                                     _ => {}
